@@ -212,6 +212,18 @@ pub fn codec_step(w: &mut World, case: &CodecCase) {
                     (a, b) => w.violate("C14", "timestamp-wire-form", bk, "encode-claims", name, format!("claim {name}: value {a:?}, wire {b:?}")),
                 }
             }
+            // the generic wrapper over the same type writes and reads the same bytes
+            match backend::encode_reg_via_json(claims) {
+                Out::Ok(e2) if e2 != enc => w.violate("C14", "json-wrapper-not-transparent", bk, "encode-claims", "", format!("Json<RegisteredClaims> encodes as {} but RegisteredClaims as {}", truncate(&String::from_utf8_lossy(&e2), 100), truncate(&String::from_utf8_lossy(&enc), 100))),
+                Out::Panic(p) => w.violate("C04", "panic", bk, "encode-claims", "", p),
+                _ => {}
+            }
+            match backend::decode_reg_via_json(&enc) {
+                Out::Ok(back) if back != *claims => w.violate("C14", "json-wrapper-not-transparent", bk, "decode-claims", "", format!("Json<RegisteredClaims> decodes {back:?}, c = {claims:?}")),
+                Out::Err(e) => w.violate("C14", "json-wrapper-not-transparent", bk, "decode-claims", "", format!("Json<RegisteredClaims> rejects the encoding of RegisteredClaims: {e:?}")),
+                Out::Panic(p) => w.violate("C04", "panic", bk, "decode-claims", "", p),
+                _ => {}
+            }
             match backend::decode_reg(&enc) {
                 Out::Ok(back) => {
                     if back != *claims {
